@@ -417,6 +417,17 @@ def modeKnown : Mode := { impl := false, kStrIdx := true, kObjKey := true, kMinI
 /-- drop the decode-value marks only (no sanitising, no reordering): the `plainify` of the theorem -/
 def stripMarks (s : String) : String := " ".intercalate ((words s).filter (· != "@"))
 
+partial def hasObjC : Q → Bool
+  | .objC _ _ => true
+  | .pipe a b => hasObjC a || hasObjC b
+  | .comma a b => hasObjC a || hasObjC b
+  | .arrC q => hasObjC q
+  | .bin _ a b => hasObjC a || hasObjC b
+  | .ite c a b => hasObjC c || hasObjC a || hasObjC b
+  | .alt a b => hasObjC a || hasObjC b
+  | .try q => hasObjC q
+  | _ => false
+
 /-! ### Q lines -/
 
 def stepQ (ff : UInt64 → Option Bytes) (d : DV) (q : Q) (obs : String) : String :=
@@ -427,11 +438,19 @@ def stepQ (ff : UInt64 → Option Bytes) (d : DV) (q : Q) (obs : String) : Strin
     if direct.startsWith "batch-failed:panic" then
       -- the interpreter crashed on `v | q`
       let mImpl := sRes (q.eval Mode.real ff (wrap d))
-      let div := if mImpl == "panic" then "" else s!" ;DIVERGE model={mImpl}"
+      -- where the model declines (text of a float that arithmetic produced, number text), whether an
+      -- object key of the recorded kind is reached is decided with SOME float text: the text of a
+      -- float can change strings, not which values reach a key position as decode values
+      let ffTotal : UInt64 → Option Bytes := fun b => some ((ff b).getD (ofAscii "0.5"))
+      let mTot := if isUnmodelled mImpl then sRes (q.eval Mode.real ffTotal (wrap d)) else mImpl
+      let div := if mTot == "panic" || isUnmodelled mImpl then "" else s!" ;DIVERGE model={mImpl}"
       -- the recorded crash: TypeOf panics on the error value that JQValueToString returned for a
       -- non-string JQValue object key (error.go:59). It is the model's only source of a panic inside
-      -- `eval` (objectKey on a decode value / gojqx.Array key).
-      if direct == "batch-failed:panic:invalid-type-FuncTypeNameError" && mImpl == "panic" then s!"KNOWN object-key-jqvalue interpreter panic"
+      -- `eval` (objectKey on a decode value / gojqx.Array key). If the model still declines (number
+      -- text), the kind of the panic — observed by the harness — plus an object construction in the
+      -- query decide.
+      if direct == "batch-failed:panic:invalid-type-FuncTypeNameError" &&
+          (mTot == "panic" || (isUnmodelled mTot && hasObjC q)) then s!"KNOWN object-key-jqvalue interpreter panic"
       else s!"PROPFAIL interpreter panic on v|q ({direct}){div}"
     else if direct.startsWith "batch-failed" || plain.startsWith "batch-failed" then
       s!"BADOP harness could not evaluate: {direct} || {plain}"
